@@ -119,6 +119,9 @@ Proof. apply pre_same, fail_with_same. Qed.
 Lemma pre_finish_with s s1 h r : pre_of s s1 h -> pre_of s (finish_with s1 r) h.
 Proof. apply pre_same, finish_with_same. Qed.
 
+Lemma pre_set_paging s s1 h b : pre_of s s1 h -> pre_of s (set_paging s1 b) h.
+Proof. intros (P & C & M). split; [exact P|split; [exact C|]]. intros y Hy. apply M. exact Hy. Qed.
+
 Lemma pre_set_spec s s1 h a l : pre_of s s1 h -> pre_of s (set_spec s1 a l) h.
 Proof. intros (P & C & M). split; [exact P|split; [exact C|]]. intros y Hy. apply M. exact Hy. Qed.
 
@@ -195,8 +198,9 @@ Lemma set_result_pre c s s0 h r s' ev : pre_of s s0 h -> set_result c s0 h r = (
   pre_of s s' h /\ plan_sends ev = [] /\ sent_hosts ev = [].
 Proof.
   intros Pre H. destruct r; cbn [set_result] in H.
+  - inversion H; subst. split; [apply pre_finish_with, pre_set_paging; assumption|auto].
   - inversion H; subst. split; [apply pre_finish_with; assumption|auto].
-  - inversion H; subst. split; [apply pre_finish_with; assumption|auto].
+  - inversion H; subst. split; [apply pre_finish_with, pre_set_paging; assumption|auto].
   - inversion H; subst. split; [apply pre_finish_with; assumption|auto].
   - destruct (pol c (nconsult s0) k tag (retries s0) (if request_error_kind k then msg_cl s0 else None)) as [d dcl].
     unfold handle_decision in H. inversion H; subst; clear H. split; [|auto].
@@ -237,6 +241,7 @@ Proof.
     apply (query_or_next_ok _ _ _ _ _ _ Q Nc). apply Hh0, P1. }
   destruct (is_some (fin_exc s0)); [inversion H; subst; apply Kpre; assumption|].
   destruct r.
+  - inversion H; subst. apply Kpre, pre_fail_with; assumption.
   - inversion H; subst. apply Kpre, pre_fail_with; assumption.
   - inversion H; subst. apply Kpre, pre_fail_with; assumption.
   - destruct (fut_ps c) as [[[pid pqs] pks]|].
@@ -300,9 +305,11 @@ End WithK.
 (* ------------------------------------------------------------------ every step is an ok transition *)
 Definition all_consumed (s : state) : Prop := all_in (hosts_of s []) (in_cons s).
 
-Lemma step_ok c s o s' ev : step c s o = (s', ev) -> ok_trans (all_consumed s) s s' ev.
+Definition is_next_page (o : op) : bool := match o with NextPage _ => true | _ => false end.
+
+Lemma step_ok c s o s' ev : is_next_page o = false -> step c s o = (s', ev) -> ok_trans (all_consumed s) s s' ev.
 Proof.
-  intros H. destruct o as [|i r|k| |h p|k]; cbn [step] in H.
+  intros NP H. destruct o as [|i r|k| |h p|k|pp]; cbn [step] in H; [| | | | | |discriminate].
   - eapply send_request_ok; eauto.
   - destruct (nth_error (attempts s) i) as [a|] eqn:N; [|inversion H; subst; apply ok_same; reflexivity].
     destruct (a_done a); [inversion H; subst; apply ok_same; reflexivity|].
@@ -325,9 +332,9 @@ Qed.
 Definition HInv (P0 : list host) (s : state) (evs : list event) : Prop :=
   consumed s ++ plan s = P0 /\ subseq (plan_sends evs) (consumed s) /\ all_in (hosts_of s evs) (in_cons s).
 
-Lemma step_hinv c P0 s evs o s' ev : HInv P0 s evs -> step c s o = (s', ev) -> HInv P0 s' (evs ++ ev).
+Lemma hinv_ok_trans P0 s evs s' ev : HInv P0 s evs -> ok_trans (all_consumed s) s s' ev -> HInv P0 s' (evs ++ ev).
 Proof.
-  intros (I1 & I2 & I3) H. destruct (step_ok _ _ _ _ _ H) as [[e C P S] Hx].
+  intros (I1 & I2 & I3) [[e C P S] Hx].
   assert (A : all_consumed s).
   { intros x Hy. apply I3, hosts_of_in. apply hosts_nil_split in Hy. tauto. }
   split; [|split].
@@ -337,12 +344,60 @@ Proof.
     intros x Hy. unfold in_cons in *. rewrite C, in_app_iff. auto.
 Qed.
 
-Lemma exec_hinv c P0 : forall ops s evs s' ev, HInv P0 s evs -> exec c s ops = (s', ev) -> HInv P0 s' (evs ++ ev).
+(* the plan the invariant speaks about: replaced by a fresh one when a further page is fetched *)
+Definition plan_after (c : config) (o : op) (s : state) (P0 : list host) : list host :=
+  match o with
+  | NextPage p => if paging s then consumed s ++ make_plan p (tgt c) else P0
+  | _ => P0
+  end.
+
+Lemma page_start_fields c s p :
+  plan (page_start c s p) = make_plan p (tgt c) /\ consumed (page_start c s p) = consumed s /\
+  (forall e, hosts_of (page_start c s p) e = hosts_of s e) /\ fin_res (page_start c s p) = None /\ fin_exc (page_start c s p) = None
+  /\ pools (page_start c s p) = pools s /\ msg_cl (page_start c s p) = msg_cl s
+  /\ retries (page_start c s p) = retries s /\ nconsult (page_start c s p) = nconsult s /\ queue (page_start c s p) = queue s
+  /\ errors (page_start c s p) = errors s /\ attempts (page_start c s p) = attempts s.
 Proof.
-  induction ops as [|o ops IH]; intros s evs s' ev I H; cbn [exec] in H.
+  unfold page_start, start_timer. cbn [spec_armed spec_left].
+  destruct (0 <? spec_left s); cbn; repeat split; reflexivity.
+Qed.
+
+Lemma step_hinv c P0 s evs o s' ev : HInv P0 s evs -> step c s o = (s', ev) -> HInv (plan_after c o s P0) s' (evs ++ ev).
+Proof.
+  intros I H. destruct (is_next_page o) eqn:NP.
+  - destruct o; try discriminate. cbn [step plan_after] in *. destruct (paging s).
+    + destruct (page_start_fields c s p) as (Pp & Pc & Ph & _).
+      assert (I0 : HInv (consumed s ++ make_plan p (tgt c)) (page_start c s p) evs).
+      { destruct I as (I1 & I2 & I3). split; [rewrite Pp, Pc; reflexivity|split; [rewrite Pc; exact I2|]].
+        intros x Hx. unfold in_cons. rewrite Pc. apply I3. rewrite <- Ph. exact Hx. }
+      apply (hinv_ok_trans _ _ _ _ _ I0). exact (send_request_ok (all_consumed (page_start c s p)) _ _ _ _ H).
+    + inversion H; subst. rewrite app_nil_r. exact I.
+  - assert (E : plan_after c o s P0 = P0) by (destruct o; try reflexivity; discriminate). rewrite E.
+    apply (hinv_ok_trans P0 s evs s' ev I). exact (step_ok c s o s' ev NP H).
+Qed.
+
+Fixpoint plan_after_ops (c : config) (s : state) (ops : list op) (P0 : list host) : list host :=
+  match ops with
+  | [] => P0
+  | o :: rest => plan_after_ops c (fst (step c s o)) rest (plan_after c o s P0)
+  end.
+
+Lemma exec_hinv c : forall ops P0 s evs s' ev, HInv P0 s evs -> exec c s ops = (s', ev) ->
+  HInv (plan_after_ops c s ops P0) s' (evs ++ ev).
+Proof.
+  induction ops as [|o ops IH]; intros P0 s evs s' ev I H; cbn [exec plan_after_ops] in *.
   - inversion H; subst. rewrite app_nil_r. exact I.
   - destruct (step c s o) as [s1 ev1] eqn:S. destruct (exec c s1 ops) as [s2 ev2] eqn:E. inversion H; subst.
-    rewrite app_assoc. eapply IH; [|exact E]. eapply step_hinv; eauto.
+    rewrite app_assoc. cbn [fst]. eapply IH; [|exact E]. eapply step_hinv; eauto.
+Qed.
+
+Definition no_page (ops : list op) : bool := forallb (fun o => negb (is_next_page o)) ops.
+
+Lemma plan_after_ops_no_page c : forall ops s P0, no_page ops = true -> plan_after_ops c s ops P0 = P0.
+Proof.
+  induction ops as [|o ops IH]; intros s P0 N; [reflexivity|].
+  cbn [no_page forallb] in N. apply andb_prop in N. destruct N as [N1 N2]. cbn [plan_after_ops].
+  rewrite IH by exact N2. destruct o; try reflexivity. discriminate.
 Qed.
 
 Lemma init_hinv lb target pl cl idem hasp maxa ks :
